@@ -804,6 +804,8 @@ class _JsonConversionHooks:
     def contains(self, ex, cont, item, lineno):
         from .engine import PyRaise
 
+        if isinstance(cont, BuiltinV) and cont.name == J2P and item is None:
+            return False  # None is hashable and is no key of the table
         if isinstance(cont, BuiltinV) and cont.name == J2P and isinstance(item, SV) and item.ty == TVal:
             if not ex.st.decide(type_is_hashable(item.term)):
                 raise PyRaise("TypeError", lineno)  # hashing a list
